@@ -120,7 +120,7 @@ func stackSite() string {
 	lines := strings.Split(string(buf), "\n")
 	for i := 0; i+1 < len(lines); i++ {
 		loc := strings.TrimSpace(lines[i+1])
-		if strings.HasPrefix(loc, "/repo/") && !strings.Contains(loc, "/verifshim/") {
+		if strings.HasPrefix(loc, explore.RepoPrefix()) && !strings.Contains(loc, "/verifshim/") {
 			fn := lines[i]
 			if j := strings.LastIndex(fn, "("); j > 0 {
 				fn = fn[:j]
